@@ -70,3 +70,32 @@ Definition run_plan (ps : list hparam) (ar : args) (r : http) : result http :=
   | PSetQuery => run_set_query ps ar r
   | PAssigns l => Ok (run_assigns l ar r)
   end.
+
+(* the URL the request goes to: the path template with each `{name}` replaced by the value given for the path
+   parameter of that name (format!("..{id}..", id = self.params.id) with Display of the value) *)
+Fixpoint subst_url (fuel : nat) (path : str) (ar : args) : str :=
+  match fuel with
+  | O => path
+  | S f =>
+    match path with
+    | [] => []
+    | c :: r =>
+        if ceqb c "{"%char then
+          let '(w, rest) := take_word r in
+          match w, rest with
+          | _ :: _, c2 :: rest' =>
+              if ceqb c2 "}"%char
+              then match arg_of ar w with
+                   | Some (AScalar v) => v ++ subst_url f rest' ar
+                   | _ => c :: subst_url f r ar
+                   end
+              else c :: subst_url f r ar
+          | _, _ => c :: subst_url f r ar
+          end
+        else c :: subst_url f r ar
+    end
+  end.
+
+(* one call of a generated client method, as the recording client sees it *)
+Definition run_operation (o : hop) (ar : args) : result http :=
+  run_plan (o_params o) ar (start (o_method o) (subst_url (length (o_path o)) (o_path o) ar)).
